@@ -27,6 +27,9 @@ CHECKS = {
  "C13": dict(cat="model_checking", tech="TLA+ controller spec with failure actions (TLC) + fault injection into the real Sampler validated against it",
    text="Model: fatal density error, storage error, init failure, two faulty chains - no panic in the caller, wait_timeout reports Err, abort reports the failure, termination; the unwrap variant must violate NoPanic (teeth). Real code: injected fatal/recoverable density faults by evaluation index, failing storage backend, failing init_position and model construction, for every chain index and both terminal calls; the trace spec's final step requires an error outcome iff a failure action occurred.",
    note="errors during the 500 initialisation attempts are retried by design and not counted as failures", ref="5/C13"),
+ "C05": dict(cat="fault_enumeration", tech="TLA+ rule set for fault outcomes (consistency by TLC) + enumeration of every (evaluation index, fault kind) in real chains, each API call validated against the rules by trace validation",
+   text="For 3 NUTS presets every density evaluation of set_position plus draws crossing the first transformation change (so initial search, trajectories, re-run search) is hit in turn by each of 8 fault kinds (recoverable / unrecoverable error, NaN, +inf, -inf log-density, NaN / inf gradient, energy jump), plus sampled pairs; every API call of every run (under catch_unwind) is one line that FaultTrace must accept under the FaultSemantics rules R1-R6; TLC also checks the rule set is total and that a fatal fault forces Err.",
+   note="phase of an evaluation derived from hook events of the same run; non-fatal faults at initialisation / at the start evaluation of the re-run search may end in Ok or Err (the statement does not say); MCLMC retry behaviour is covered under C18", ref="5/C05"),
 }
 NOT_APPLICABLE = {
  "C19": "encode/decode fidelity of a plain data structure plus equality of two deterministic runs: no state machine, schedule, history or fault to specify in TLA+ (DESIGN.md 5/C19)",
